@@ -51,10 +51,12 @@ func (h discardHandler) WithAttrs([]slog.Attr) slog.Handler      { return h }
 func (h discardHandler) WithGroup(string) slog.Handler           { return h }
 
 type retained struct {
-	name string
-	s    string
-	b    []byte
-	cp   []byte
+	name   string
+	s      string
+	b      []byte
+	cp     []byte
+	params []wire.Parameter // the slice handed to the statement function, retained as such
+	pi     int
 }
 
 // connState is the harness-side state of one connection (only touched by that
@@ -85,6 +87,20 @@ func (c *connState) retainBytes(name string, b []byte) {
 	c.retainedVals = append(c.retainedVals, retained{name: name, b: b, cp: append([]byte{}, b...)})
 }
 
+// retainParams keeps the []Parameter slice exactly as it was handed to the
+// statement function (a holder may keep the slice, not only the value bytes).
+func (c *connState) retainParams(params []wire.Parameter) {
+	if !c.rt.C.Retain() {
+		return
+	}
+	for i := range params {
+		if params[i].Value() == nil {
+			continue
+		}
+		c.retainedVals = append(c.retainedVals, retained{name: fmt.Sprintf("parameter-slice[%d]", i), params: params, pi: i, cp: append([]byte{}, params[i].Value()...)})
+	}
+}
+
 func (c *connState) checkRetained(where string) {
 	if len(c.retainedVals) == 0 {
 		return
@@ -93,6 +109,9 @@ func (c *connState) checkRetained(where string) {
 		cur := r.s
 		if r.b != nil {
 			cur = string(r.b)
+		}
+		if r.params != nil {
+			cur = string(r.params[r.pi].Value())
 		}
 		if cur != string(r.cp) {
 			msg := fmt.Sprintf("%s changed (seen at %s): was %q now %q", r.name, where, trunc(string(r.cp), 48), trunc(cur, 48))
